@@ -232,8 +232,10 @@ EXPLANATION = (
     "Protocol argument for all interleavings of two processes sharing only the directory tree. P1-P7 = C02.R1-R7 (tmp-name "
     "provenance, close-before-rename typestate, no writer of final names, staged creation, grammars exclude tmp.). R1: no path "
     "in the call graph from any DigitalRFReader / listing entry point to a file-system mutator. R2: get_bounds skips files that "
-    "fail to open; _read probes with os.access and opens read-only. R3: the per-file cache is keyed by the full path and all of "
-    "it is refreshed when the path changes. With POSIX rename atomicity these imply that a reader sees exactly the finalized "
+    "fail to open; _read tolerates a file that is not there (os.access probe, or a caught IOError of the open) and opens "
+    "read-only. R3: the per-file cache is keyed by the full path, all of it is refreshed when the path changes, and once the "
+    "cached handle is closed the key is re-assigned or cleared before the iteration can be left without a successful open (no key "
+    "naming a closed file). With POSIX rename atomicity these imply that a reader sees exactly the finalized "
     "files and that set only grows. Does NOT decide failures outside the protocol (EMFILE, permissions) or timing.")
 TECHNIQUE = ("C02's protocol rules + package call graph reachability (read roles), CFG checks of vanished-file tolerance, cache key def-use")
 ASSUMPTIONS = c02.ASSUMPTIONS + ["a finalized RF file is never modified (C02.R3), so cached index data cannot go stale"]
